@@ -149,5 +149,29 @@ Theorem getitem_spec bs b (i : Z) :
     else if ((i <? 0) && (- n <=? i))%Z then nth_error (tables bs) (Z.to_nat (n + i))
     else None.
 Proof. intro H. unfold getitem_int. rewrite <- (contents bs b H). reflexivity. Qed.
+
+(* findable by name: every TABLE block of a bundle that could be built has a name, and is among the
+   tables the bundle returns for that name (and the bundle says it contains that name) *)
+Theorem findable bs b t :
+  build name_of bs = Some b -> In t (tables bs) ->
+  exists n, name_of t = Some n /\ In t (all b n) /\ contains b n = true.
+Proof.
+  intros H Hin. destruct (name_of t) as [n|] eqn:Hn.
+  - exists n. split; [reflexivity|].
+    assert (has_name n t = true) as Hh by (unfold has_name; rewrite Hn; apply str_eqb_refl).
+    split.
+    + rewrite (all_spec bs b n H). apply filter_In. auto.
+    + apply (contains_spec bs b n H). exists t. auto.
+  - assert (build name_of bs = None) as C by (apply build_none; exists t; auto). congruence.
+Qed.
+
+(* and only under its own name: what all(n) returns are TABLE blocks of the input named n *)
+Theorem all_sound bs b n t :
+  build name_of bs = Some b -> In t (all b n) -> In t (tables bs) /\ name_of t = Some n.
+Proof.
+  intros H Hin. rewrite (all_spec bs b n H) in Hin. apply filter_In in Hin. destruct Hin as [Hin Hh].
+  split; [exact Hin|]. unfold has_name in Hh. destruct (name_of t) as [m|]; [|discriminate].
+  apply str_eqb_eq in Hh. now subst.
+Qed.
 End P.
 Arguments tables {T}. Arguments has_name {T}.
